@@ -2,6 +2,8 @@ use crate::engine::Prop;
 use std::sync::Arc;
 
 pub mod c01;
+pub mod c02;
+pub mod c04;
 pub mod c05;
 pub mod c06;
 pub mod c07;
@@ -20,6 +22,8 @@ pub mod c20;
 pub fn all() -> Vec<Arc<dyn Prop>> {
     vec![
         Arc::new(c01::C01),
+        Arc::new(c02::C02),
+        Arc::new(c04::C04),
         Arc::new(c05::C05),
         Arc::new(c06::C06),
         Arc::new(c07::C07),
